@@ -52,12 +52,12 @@ static int cmp_key(void const *ctx, void const *b)
 enum
 {
     L_RM_LEAF, L_RM_ONE, L_RM_TWO_SUCC_RIGHT, L_RM_TWO_SUCC_DEEP, L_DUP, L_ROOT_CHANGED, L_SIZE16, L_SIZE64,
-    L_INS_AFTER_RM, L_RM_BLACK, L_BATTERY, L_TEAR_INTERRUPT, L_TEAR_RESTART, L_EMPTIED, L_LEFT_ONLY, L_RIGHT_ONLY, L_RM_ROOT
+    L_INS_AFTER_RM, L_RM_BLACK, L_BATTERY, L_TEAR_INTERRUPT, L_TEAR_RESTART, L_EMPTIED, L_LEFT_ONLY, L_RIGHT_ONLY, L_RM_ROOT, L_MANUAL_INSERT
 };
 static char const *const labels[] = {"remove_leaf", "remove_one_child", "remove_two_children_successor_is_right_child",
                                      "remove_two_children_deeper_successor", "duplicate_insert", "root_changed", "size_ge_16", "size_ge_64",
                                      "insert_after_remove", "rbt_removed_black_node", "iterator_battery_on_ge5_nodes", "tear_interrupted_midway",
-                                     "tear_restarted_from_null", "tree_emptied_and_refilled", "has_left_only_node", "has_right_only_node", "remove_root", nullptr};
+                                     "tear_restarted_from_null", "tree_emptied_and_refilled", "has_left_only_node", "has_right_only_node", "remove_root", "manual_link_plus_insert_adjust", nullptr};
 static char const *const metrics[] = {"max_live_nodes", "max_height", nullptr};
 static uint8_t const dict[] = {4, 5, 6, 12, 13, 20, 21};
 
@@ -507,7 +507,7 @@ static void run_case(Tape &tp, Ctx &cx)
     {
         ++nops;
         ++cx.rep->subcases;
-        uint8_t op = tp.u8() % 9;
+        uint8_t op = tp.u8() % 10;
         int key = int(tp.u8()) % U;
         cx.hash.add(op);
         cx.hash.add(uint64_t(key));
@@ -547,6 +547,25 @@ static void run_case(Tape &tp, Ctx &cx)
                 do_insert(cx, t, f->first, ins);
             }
             break;
+        case 9: {
+            // the documented two-step insertion: the caller descends and links, then calls *_insert_adjust
+            if (t.model.count(key)) { do_search(cx, t, key); break; }
+            Item *it = new_item(t, key);
+            N *parent = nullptr, **link = &t.root.node;
+            while (*link)
+            {
+                parent = *link;
+                link = key < item(parent)->key ? &parent->left : &parent->right;
+            }
+            *link = TF(init)(&it->node, parent);
+            TF(insert_adjust)(&t.root, &it->node);
+            t.model[key] = it;
+            cx.log("manual insert(%d) + insert_adjust\n", key);
+            cx.label(L_MANUAL_INSERT);
+            ++nins;
+            mutated = true;
+            if (nrm) { ++ins_after_rm; cx.label(L_INS_AFTER_RM); }
+            break; }
         case 8: {
             // bulk insert: run of keys ascending / descending / zig-zag / stride (3 bytes build a large tree)
             uint8_t b = tp.u8();
